@@ -54,6 +54,8 @@ class Field:
     doc: bool = False
     qualified: bool = False                # spell arbitrary-int field types as arbitrary_int::uN
     arg_order: str = 'ras'                 # order of the attribute arguments: r = range, a = access, s = stride
+    access_split: str = ''                 # spell an rw access as two flags: 'r, w' or 'w, r' (undocumented; OPTIONAL family)
+    type_alias: bool = False               # custom kinds: name the type through `pub type A<name> = <name>;`
     opt_path: str = ''                     # spelling of `Option` for kind o: '' | 'core::option::' | '::core::option::' | 'std::option::'
 
     @property
